@@ -719,7 +719,7 @@ func TestC12(t *testing.T) {
 	rec := lib.Rec(spec)
 	shard, shards := lib.Shard()
 	// round-trip histories (rapid; also replays the listed findings first)
-	lib.Check(t, spec, lib.Scale(1000, 60000), genAny, runAny)
+	lib.Check(t, spec, lib.Scale(800, 60000), genAny, runAny)
 	if t.Failed() {
 		return
 	}
@@ -729,8 +729,8 @@ func TestC12(t *testing.T) {
 	for i, sh := range shapes {
 		for _, withPrev := range []bool{false, true} {
 			for _, compress := range []bool{false, true} {
-				if !lib.Thorough() && compress && i != 1 && i != 5 {
-					continue // quick tier: the compressed store is one tarball whatever the shape; two shapes suffice
+				if !lib.Thorough() && !quickShape(i, withPrev, compress) {
+					continue
 				}
 				n++
 				if n%shards != shard || !ok {
@@ -771,6 +771,21 @@ func TestC12(t *testing.T) {
 		c := rapid.Custom(genConc).Example(int(lib.Seed()%1000003)*1000 + 500 + i)
 		ok = lib.Each(t, spec, anyCase{RFault: &rfaultCase{Compress: c.Conc.Compress, Outs: c.Conc.Outs}}, runAny)
 	}
+}
+
+// quickShape selects the enumerated crash cases of the quick tier (every strace run costs 0.1-1 s on a busy
+// machine): all shapes re-stored over an existing entry in a plain cache, two shapes stored afresh, and three
+// compressed cases (a compressed store is a single tarball whatever the shape).
+func quickShape(i int, withPrev, compress bool) bool {
+	switch {
+	case !compress && withPrev:
+		return true
+	case !compress:
+		return i == 2 || i == 5
+	case withPrev:
+		return i == 1 || i == 5
+	}
+	return i == 5
 }
 
 func genConc(t *rapid.T) anyCase {
